@@ -141,7 +141,8 @@ def check_case(case):
         tgt_i, stp, printed = first_call
         sctx2 = sched.SchedCtx(env)
         q2, outcome2, d2 = sched.apply_step(recs[tgt_i].p, stp, sctx2)
-        if stp[0] not in ("extract_subproc", "std.auto_stage_mem"):
+        # (ops whose arguments contain a fresh-name counter are not comparable between the runs)
+        if stp[0] not in ("extract_subproc", "std.auto_stage_mem", "rename", "call_eqv"):
             if outcome2 != "accepted" or safe_str(q2) != printed:
                 raise Violation(
                     {"kind": "replay-differs", "op": stp[0]},
